@@ -372,7 +372,8 @@ class CasXmiDeserializer:
         if type_name.startswith("uima.noNamespace."):
             type_name = type_name[17:]
 
-        AnnotationType = typesystem.get_type(type_name)
+        # The element names the type in full, so a type which merely has the same short name must not be used
+        AnnotationType = typesystem.get_type(type_name, True)
 
         # Remap features that use a reserved Python name, no matter whether they were given as attributes or as
         # nested elements
